@@ -331,8 +331,14 @@ def clause_d(P, rep):
     segv = L.variant_names(P, "parser::SegmentType")
     oks = [p for p in paths if p.exit == "Ok"]
     rep.count("paths of build_pass_1 (two segments)", len(paths))
-    seen = set()
     INIT = {"Code": "0", "Eeprom": "0", "Data": "<context::CommonContext as context::Context>::get_device(common_context*).ram_start"}
+    # reference: per memory a location counter (where the next segment without .org goes on) and the end of what is occupied (what an
+    # .org must not go below, what is compared with the capacity and reported).  A segment moves the counter to its end; it moves the
+    # occupied end only when it placed something (end > start): an .org that nothing follows takes no space.
+    def seg_of(d):
+        return 1 if d.startswith("pass_1_internal(parsed.segments[i], ") else 2 if d.startswith("pass_1_internal(parsed.segments[i+1], ") else None
+    verdict = {}
+    fields = [f["name"] for f in P.lib.adts["builder::pass1::BuildResultPass1"]["variants"][0]["fields"]]
     for p in oks:
         t1 = L.dom1(p.state, "parsed.segments[i].t#d")
         t2 = L.dom1(p.state, "parsed.segments[i+1].t#d")
@@ -340,34 +346,50 @@ def clause_d(P, rep):
             continue
         t1, t2 = segv[t1], segv[t2]
         calls = [e for e in p.events if e[0] == 'call' and e[1] == "builder::pass1::pass_1_internal"]
-        if len(calls) != 2 or (t1, t2) in seen:
+        if len(calls) != 2:
             continue
-        seen.add((t1, t2))
-        off1, off2 = calls[0][2][1], calls[1][2][1]
-        want1 = INIT[t1]
-        ok1 = off1 == want1
-        if t1 == t2:
-            ok2 = bool(re.search(r"^pass_1_internal\(parsed\.segments\[i\], .*\)@\d+:Ok\.0\.0$", off2))
-            want2 = "end offset of the first %s segment" % t1
-        else:
-            ok2 = off2 == INIT[t2]
-            want2 = INIT[t2]
-        rep.ob("C02.d|%s-then-%s" % (t1, t2), ok1 and ok2,
-               "%s then %s: the second segment starts at %s" % (t1, t2, want2) if ok1 and ok2 else
-               "%s then %s: segments start at %s and %s; expected %s and %s (counters are not per segment type)" % (t1, t2, off1, off2, want1, want2))
-        # ram_filling and pushed segment
+        v = verdict.setdefault((t1, t2), {"start": [], "floor": [], "rf": [], "paths": 0})
+        v["paths"] += 1
+        places = {}
+        for e, t in p.conds:
+            m = re.match(r"^\((pass_1_internal\(parsed\.segments\[i(\+1)?\], .*\)@\d+):Ok\.0\.0 > (pass_1_internal\(parsed\.segments\[i(\+1)?\], .*\)@\d+):Ok\.0\.1\)$", sx.show(e))
+            if m and m.group(1) == m.group(3):
+                places[seg_of(m.group(1))] = (bool(t), m.group(1) + ":Ok.0.0")
+        running = dict(INIT)
+        occupied = dict(INIT)
+        for k, (t, c) in enumerate(((t1, calls[0]), (t2, calls[1])), 1):
+            has_floor = len(c[2]) >= 4
+            same = lambda actual, want: (seg_of(actual) == want[1] and actual.endswith(":Ok.0.0") and actual.count(":Ok.0.0") == want[1]) if isinstance(want, tuple) else actual == want
+            if not same(c[2][1], running[t]):
+                v["start"].append("segment %d (%s) starts at %s, expected %s" % (k, t, c[2][1][:80], str(running[t])[:80]))
+            if has_floor and (isinstance(occupied[t], tuple) or c[2][2] != occupied[t]):
+                v["floor"].append("segment %d (%s) is checked against %s, expected the end of what is occupied in that memory, %s" % (k, t, c[2][2][:80], str(occupied[t])[:80]))
+            if k in places:
+                end = places[k][1]
+                running[t] = end
+                if places[k][0]:
+                    occupied[t] = end
+            else:
+                # no test of `end > start` on this path: the occupied end must then not depend on this segment at all, or the
+                # tree counts an .org that nothing follows as occupied
+                running[t] = ("end", k)
+                occupied[t] = ("?", k)
         ret = p.ret[3][0] if p.ret[0] == 'agg' and p.ret[3] else None
         if ret is not None and ret[0] == 'agg':
-            fields = [f["name"] for f in P.lib.adts["builder::pass1::BuildResultPass1"]["variants"][0]["fields"]]
-            rf = ret[3][fields.index("ram_filling")]
-            d = M.describe(p.state, rf)
-            ndata = [t for t in (t1, t2) if t == "Data"]
-            if ndata:
-                okrf = bool(re.search(r"^\(pass_1_internal\(parsed\.segments\[i(\+1)?\], .*:Ok\.0\.0 - .*get_device\(common_context\*\)\.ram_start\)$", d)) and \
-                    ("[i+1]" in d.split(" - ")[0]) == (t2 == "Data")
-            else:
-                okrf = bool(re.search(r"^\(.*ram_start - .*ram_start\)$", d))
-            rep.ob("C02.d|ram_filling|%s-%s" % (t1, t2), okrf, "ram_filling = end of the last data segment − ram_start" if okrf else "ram_filling is %s" % d)
+            d = M.describe(p.state, ret[3][fields.index("ram_filling")])
+            occ = occupied["Data"]
+            if isinstance(occ, tuple):
+                v["rf"].append("ram_filling is %s although segment %d may have placed nothing (an .org that nothing follows would count as used RAM)" % (d[:120], occ[1]))
+            elif d != "(%s - %s)" % (occ, INIT["Data"]):
+                v["rf"].append("ram_filling is %s, expected (%s - ram_start)" % (d[:160], occ[:120]))
+    seen = set(verdict)
+    for (t1, t2), v in sorted(verdict.items()):
+        ok = not v["start"] and not v["floor"]
+        rep.ob("C02.d|%s-then-%s" % (t1, t2), ok,
+               "%s then %s: the second segment goes on at the location counter of its own memory and is checked against what is occupied there (%d paths)" % (t1, t2, v["paths"]) if ok else
+               "%s then %s: %s" % (t1, t2, "; ".join(dict.fromkeys(v["start"] + v["floor"]))))
+        okrf = not v["rf"]
+        rep.ob("C02.d|ram_filling|%s-%s" % (t1, t2), okrf, "ram_filling = end of the last data segment that placed something − ram_start" if okrf else "; ".join(dict.fromkeys(v["rf"])))
     rep.ob("C02.d|coverage", len(seen) == 9, "all 9 ordered pairs of segment types analysed (%d)" % len(seen), kind="unprovable", nontrivial=False)
     # the segment handed to pass 2 carries pass 1's start address and items
     okp = False
@@ -396,14 +418,21 @@ def clause_e(P, rep, rows1):
         sd = M.describe(p.state, start) if start is not None else None
         ed = M.describe(p.state, end) if end is not None else None
         variants.add((tuple(sorted(cs)), sd, ed))
-    want = {((("(segment*.address == 0)", True),), "address", "address"),
-            ((("(segment*.address < address)", False), ("(segment*.address == 0)", False)), "segment*.address", "segment*.address")}
+    # the parameters by position: the running location counter, and (when the function takes one) the end of what is occupied
+    body = P.body[fn]
+    import canon_params
+    pnames = canon_params.names_of(P, fn)
+    u32s = [pnames[i - 1] for i in range(1, body["arg_count"] + 1) if P.tys(fn, body["locals"][i]["ty"]) == "u32"]
+    running = u32s[0] if u32s else "address"
+    floor = u32s[1] if len(u32s) > 1 else running
+    want = {((("(segment*.address == 0)", True),), running, running),
+            ((("(segment*.address < %s)" % floor, False), ("(segment*.address == 0)", False)), "segment*.address", "segment*.address")}
     ok = variants == want
     rep.ob("C02.e|start-and-guard", ok,
-           "segment start = running offset when no .org was given, else the .org address, accepted iff address >= running offset" if ok else
-           "start/guard of a segment differ from (address == 0 ? running : address) under address >= running: %s" % sorted(variants, key=str),
+           "segment start = running offset when no .org was given, else the .org address, accepted iff it is not below what is occupied in that memory" if ok else
+           "start/guard of a segment differ from (address == 0 ? running : address) under address >= occupied end: %s" % sorted(variants, key=str),
            detail={"found": sorted(variants, key=str)})
-    eg = [p for p in errs if any(sx.show(e) == "(segment*.address < address)" and t for e, t in p.conds)]
+    eg = [p for p in errs if any(sx.show(e) == "(segment*.address < %s)" % floor and t for e, t in p.conds)]
     rep.ob("C02.e|overlap-rejected", len(eg) == 1 and len(errs) == 1, "a segment placed below the running offset fails the build" if len(eg) == 1 and len(errs) == 1 else
            "overlap handling: %d error paths, %d for the overlap guard" % (len(errs), len(eg)))
     # pad loops of build_pass_2
